@@ -17,17 +17,17 @@ BUILT = {
   ref="3 C02"),
  "C03": dict(
   technique=PBT + "; conservation invariant per security in exact rationals (leg costs + closing cost = purchases + accumulations - net capital returns in effect)",
-  text="Cost conservation recomputed from input lines for generated ledgers with partial lots, fees, splits and CAPRETURN/ACCUMULATION events; an event counts iff shares were held at the close of the previous day.",
-  note="Trusted: day aggregation; money tolerance 1e-9. FX amounts are covered by C08's twin relation rather than here.",
+  text="Cost conservation recomputed from input lines for generated ledgers with partial lots, fees, splits and CAPRETURN/ACCUMULATION events; an event counts iff shares were held at the close of the previous day; a foreign-currency stratum converts every amount with the harness's own reading of the bundled rate tables.",
+  note="Trusted: day aggregation, the harness's rate-table scanner; money tolerance 1e-9.",
   ref="3 C03"),
  "C04": dict(
   technique=PBT + "; identities recomputed from the input lines over generated exemption configurations (embedded, replaced/added years, missing year must error)",
-  text="Every report identity in the statement (gross/net proceeds, leg sums, gain netting per disposal, year totals, disposal_count incl. JSON field, dividend sums, exemption lookup, taxable gain, UnsupportedExemptionYear instead of zero) is recomputed independently for generated multi-year ledgers incl. a zero-result/mixed stratum.",
+  text="Every report identity in the statement (gross/net proceeds, leg sums, gain netting per disposal, year totals, disposal_count incl. JSON field, dividend sums, exemption lookup, taxable gain, UnsupportedExemptionYear instead of zero) is recomputed independently for generated multi-year ledgers incl. a zero-result/mixed stratum and a stratum with shuffled lines; each tax year must list exactly one disposal per (security, day) with a sale.",
   note="Exemption override *files* are exercised through Config values here; the CLI path reads files in the process strata of C07/C16. Money tolerance 1e-9.",
   ref="3 C04"),
  "C05": dict(
   technique=PBT + "; mutation-based generation (accepted ledger -> deleted BUY / duplicated SELL / +1 share / +1 ulp / SELL moved earlier / extra SELL next day) with the exact coverage predicate of the reference model as oracle",
-  text="Accept/refuse verdict of calculate() compared with exact cumulative coverage per security and date; on refusal the error must be InvalidTransaction naming an uncovered (security, ISO date). About half the generated cases are uncovered.",
+  text="Accept/refuse verdict of calculate() compared with exact cumulative coverage per security and date; on refusal the error must be InvalidTransaction naming an uncovered (security, ISO date). About half the generated cases are uncovered. A process-level stratum runs the CLI in all formats and the MCP tools calculate_report and explain_matching on covered and uncovered ledgers.",
   note="'No other obstacle' by construction (GBP, all years configured, no CAPRETURN). Known finding F3 (rounding dust through non-terminating ratios) is attributed only by its exact signature.",
   ref="3 C05"),
  "C06": dict(
@@ -42,7 +42,7 @@ BUILT = {
   ref="3 C07"),
  "C08": dict(
   technique=PBT + "; metamorphic twin (foreign ledger vs ledger pre-converted with an independently scanned rate table), generated rate folders, malformed files; CLI --fx-folder stratum",
-  text="Ledgers with per-field currencies over 2014-2027 and generated rate folders (overrides, new months, two files per month, both name styles) must equal their GBP twin or fail with MissingFxRate naming a genuinely missing pair; loaded cache compared with the expected table on overridden keys and neighbours; malformed files must be rejected; the real CLI with --fx-folder is compared with the twin.",
+  text="Ledgers with per-field currencies over 2014-2027 and generated rate folders (overrides, new months, two files per month, both name styles) must equal their GBP twin or fail with MissingFxRate naming a genuinely missing pair; loaded cache compared with the expected table on overridden keys and neighbours; malformed files (mislabelled periods in several spellings, non-positive rates also on rows with unknown currency codes, unparsable names/content) must be rejected; ledgers are stretched from days to years; the real CLI with --fx-folder is compared with the twin. A zero FEES/TAX amount needs no rate.",
   note="Trusted: harness scanner over crates/cgt-money/resources/rates (plain text scan), Decimal division identical on both sides.",
   ref="3 C08"),
  "C09": dict(
@@ -57,7 +57,7 @@ BUILT = {
   ref="3 C10"),
  "C11": dict(
   technique=PBT + "; metamorphic relations on an inserted event (exact cost delta, later-acquired legs unchanged, cancelling pair, dividend neutrality), sign invariant, refusal boundary against the exact pool cost",
-  text="Base ledger x one inserted CAPRETURN / ACCUMULATION / cancelling pair / DIVIDEND lines / boundary-sized return. Known findings F11 and F12 are attributed only when an emulation of the tool's own pre-pass reproduces exactly that behaviour.",
+  text="Base ledger x one inserted CAPRETURN / ACCUMULATION / cancelling pair / DIVIDEND lines / boundary-sized return (also written as two same-day lines, also sharing its date with another event); legs of disposals made before the holding was emptied keep their cost. Known findings F11 and F12 are attributed only when an emulation of the tool's own pre-pass reproduces exactly that behaviour.",
   note="The tool's deliberate attachment of adjustments to earlier acquisitions (C12) is respected; refusal boundary judged only for pool-only histories.",
   ref="3 C11"),
  "C12": dict(
@@ -68,26 +68,26 @@ BUILT = {
  "C13": dict(
   technique=PBT + " over lexical renderings, single-token corruptions and random byte edits; round-trip/line-count oracle for whatever parses",
   text="Valid lists rendered with every combination of the listed lexical variations must parse to the same list; one corrupted token must produce a ParseError whose position is the corrupted line; byte-edited texts must either be rejected or parse completely (transactions = non-blank non-comment lines) and re-serialise.",
-  note="Corrupted files use LF/CRLF so the line number is well defined.",
+  note="Corrupted files use LF, CRLF and CR-only endings.",
   ref="3 C13"),
  "C14": dict(
   technique=PBT + "; round-trip oracles (DSL write->parse, JSON write->read, idempotent writing) over the full decimal/date/currency domain + report equality across renderings",
-  text="Arbitrary transaction lists (96-bit mantissas, scales 0-28, every ISO-4217 code, keyword-like tickers, dates 0001-9999) and generated ledgers.",
+  text="Arbitrary transaction lists (96-bit mantissas, scales 0-28, every ISO-4217 code, keyword-like tickers, dates 0001-9999) and generated ledgers, also with foreign currencies and zero optional amounts labelled in a currency without rates (ledger, DSL rendering and JSON rendering must give the same outcome); CLI/MCP stratum.",
   note="Numeric equality of decimals; lower-case tickers are not expressible in the DSL.",
   ref="3 C14"),
  "C15": dict(
   technique=PBT + " / generated fuzzing of every entry point with crash, cleanliness and validator oracles; CLI fault sequences against the real binary",
-  text="Arbitrary text, hostile ledgers, validator inputs with arbitrary signs, converter texts (in-process with panic capture) and generated CLI fault sequences (missing files, unwritable/pre-existing outputs, default-PDF protection, bad fx folders) checking exit codes, stdout emptiness and untouched output paths.",
+  text="Arbitrary text, hostile ledgers, validator inputs with arbitrary signs, converter texts (in-process with panic capture) and generated CLI fault sequences (missing files, unwritable/pre-existing outputs, default-PDF protection, bad fx folders, standard output / standard error connected to /dev/full) checking exit codes, stdout emptiness and untouched output paths.",
   note="Hangs are only detected by watchdog (exit 2). Known finding F7 (rust_decimal overflow panics) is attributed by exact message and location.",
   ref="3 C15"),
  "C18": dict(
   technique=PBT + " over generated Schwab exports; row-conservation oracle computed from the rows, permutation and chunking metamorphic relations, DSL validity of the output",
-  text="Generated BrokerageTransactions arrays with every action type, amount spelling, date form, hostile descriptions, cancel rows, awards; output must parse, BUY/SELL multiset and dividend/withholding totals must equal the rows, skipped/warnings must account for the rest, order and chunking must not matter.",
+  text="Generated BrokerageTransactions arrays with every action type, amount spelling, date form, hostile descriptions, cancel rows, awards; output must parse, BUY/SELL multiset and dividend/withholding totals must equal the rows, skipped/warnings must account for the rest, order and chunking must not matter. Rows include Sell twins, companion dividend/withholding rows for one date and symbol, blank amounts and fees spelled negative.",
   note="Domain: alphanumeric symbols, non-negative numbers; dividends/withholding rows carry symbol and amount.",
   ref="3 C18"),
  "C19": dict(
   technique=PBT + " over generated awards files and deposit dates; reference lookup written from the statement",
-  text="Awards entries at -12..+12 days around deposits with every field combination; the emitted BUY must carry the date and a price of the entry the 7-day look-back rule selects, or conversion must fail naming symbol and date.",
+  text="Awards entries at -12..+12 days around deposits with every field combination; the emitted BUY must carry the date and a price of the entry the 7-day look-back rule selects, or conversion must fail naming symbol and date; other symbols in the awards file sort before and after the deposit's and share its prefix.",
   note="Ambiguous field combinations (blank vest value next to a fallback price) are not generated.",
   ref="3 C19"),
 }
@@ -101,12 +101,12 @@ BUILT.update({
   ref="3 C16"),
  "C17": dict(
   technique=PBT + "; differential oracle between each front-end (plain text, JSON, PDF text runs via verif-hooks, MCP calculate_report/explain_matching) and figures recomputed in exact rationals with half-away-from-zero rounding",
-  text="Generated reports incl. a half-penny midpoint stratum and a >= 1,000,000 stratum; every figure located through the documented layout and compared with the computed value (in full or rounded to pence), structure (years, disposals, legs, holdings, transactions) compared across front-ends.",
+  text="Generated reports incl. a half-penny midpoint stratum and a >= 1,000,000 stratum; every figure located through the documented layout (incl. the asset-event sections of text and PDF, price/fee cells with foreign currencies, century-boundary tax-year labels) and compared with the computed value (in full or rounded to pence), structure (years, disposals, legs, holdings, transactions) compared across front-ends.",
   note="PDF read through the verif-hooks feature of cgt-formatter-pdf (text runs of the compiled document). Known finding F8 (binary-float rounding in the PDF) is attributed only when a reproduction of the template's float pipeline yields exactly the shown text.",
   ref="3 C17"),
  "C20": dict(
   technique="stateful/model-based generation of JSON-RPC sessions (vec of request specs + interpreter) against the real `cgt-tool mcp` process, pipelined and sequential, 4-8 concurrent sessions; oracles: one response per id, liveness until EOF, statelessness (same request => same answer across positions, deliveries and sessions), differential vs library/CLI",
-  text="Sessions of 5-60 well-formed and malformed requests over the five tools and the resource methods are run twice (as generated and reversed one at a time); answers are compared per request content and against cgt-core / cgt-tool report/parse and the independent FX table.",
+  text="Sessions of 5-60 well-formed and malformed requests over the five tools and the resource methods (some sent twice, some with byte-edited or padded arguments incl. multi-byte characters) are run twice (as generated and reversed one at a time); answers are compared per request content and against cgt-core / cgt-tool report/parse and the independent FX table.",
   note="tokio interleavings are provoked, not enumerated. Known findings F7 (overflow request never answered) and F16 (non-object params stops the server) are attributed by exact signature. Requests with methods outside the MCP schema are outside the statement's domain and not generated.",
   ref="3 C20"),
 })
